@@ -160,9 +160,31 @@ def gen_and_replay(ctx, acc, name, cfg, simulate=None, depth=None, keep=None, ti
     return n
 
 
-def design(ctx, acc, name, cfg, expect=None, timeout=1500, count=True):
+def design(ctx, acc, name, cfg, expect=None, timeout=1500, count=True, coverage=False):
     r = ctx.tlc(AREA, "Gossip", name + ".cfg", files={name + ".cfg": cfg}, tag="mc_" + name,
-                workers=W, timeout=timeout, expect_violation=expect is not None)
+                workers=W, timeout=timeout, expect_violation=expect is not None, coverage=coverage)
+    if coverage:
+        # vacuity guard: every action of the specification fired
+        acts = {}
+        import re
+        src = open(os.path.join(vlib.VERIF, "spec", AREA, "Gossip.tla")).read().split("\n")
+        for ln in r.lines():
+            m = re.match(r"^<(\w+) line \d+, col \d+ to line \d+, col \d+ of module Gossip"
+                         r"(?: \((\d+) (\d+) (\d+) (\d+)\))?>: (\d+):(\d+)", ln)
+            if not m:
+                continue
+            name = m.group(1)
+            if m.group(2):
+                # a disjunct of Next quantified over the message set: name it by its source text
+                l, c1, c2 = int(m.group(2)), int(m.group(3)), int(m.group(5))
+                mm = re.search(r"(\w+)\(m\)", src[l - 1][c1 - 1:c2])
+                name = mm.group(1) if mm else name
+            acts[name] = acts.get(name, 0) + int(m.group(7))
+        need = ["Tick", "Restart", "StateChange", "SendSync", "HandleSync", "HandleAck", "HandleAck2", "Drop"]
+        dead = [a for a in need if not acts.get(a)]
+        acc.action_counts = acts
+        if dead:
+            raise vlib.Inconclusive("vacuous design run %s: actions never fired: %s" % (name, dead))
     rec = {"cfg": name, "distinct": r.distinct, "generated": r.generated, "violated": r.violated,
            "wall_s": round(r.wall, 1)}
     if expect is not None:
@@ -244,10 +266,14 @@ def process_bad(ctx, acc):
         if not bad or bad[0]["r"] != "violation" or (bad[0].get("sig") or "") != (b.get("sig") or ""):
             raise vlib.Inconclusive("violation did not reproduce: %s" % b)
         cut = hist[:b["step"] + 1] if b["step"] >= 0 else hist
-        ctx.report(sig, "gossip %s at step %d of [%s]: expected %s; real stores: %s (%d histories)" % (
-            b.get("kind"), b["step"], short(cut), b.get("exp"), b.get("act"), len(items)),
-            {"history": hist, "mismatch": b, "count": len(items),
-             "cmd": "python3 tools/verif.py replay C12 <this file>"})
+        what = "gossip %s at step %d of [%s]: expected %s; real stores: %s (%d histories)" % (
+            b.get("kind"), b["step"], short(cut), b.get("exp"), b.get("act"), len(items))
+        obj = {"history": hist, "mismatch": b, "count": len(items),
+               "cmd": "python3 tools/verif.py replay C12 <this file>"}
+        if ctx.report(sig, what, obj) == "known" and not ctx.replay_path and not ctx.selftest:
+            # keep the minimal reproduction of the known finding next to the violations
+            ctx.save_replay(dict(obj, signature=sig, what=what, property=ctx.pid),
+                            name="known-%s.json" % sig.replace("C12 ", "").replace(" ", "-"))
     return drift
 
 
@@ -258,6 +284,7 @@ def run(ctx):
     design(ctx, acc, "n2_full", mc_cfg(2, 2 if thorough else 1, 1, 1, 2, ALL_TOPOS))
     design(ctx, acc, "n3_seq", mc_cfg(3, 1, 1 if thorough else 0, 0, 1, ("hub",) if thorough else ("hub", "self")))
     design(ctx, acc, "n3_overlap", mc_cfg(3, 0, 0, 0, 2, ("hub", "self")))
+    design(ctx, acc, "n2_coverage", mc_cfg(2, 1, 1, 1, 2, ("hub", "skew")), coverage=True, count=False)
     if thorough:
         design(ctx, acc, "n3_overlap_restart", mc_cfg(3, 0, 1, 0, 2, ("hub",)))
         design(ctx, acc, "n3_overlap_tick", mc_cfg(3, 1, 0, 0, 2, ("hub", "skew")))
@@ -316,6 +343,7 @@ def run(ctx):
         "samples": acc.samples[:3],
         "exhaustive": acc.exhaustive,
         "design_runs": acc.design,
+        "tlc_action_counts": getattr(acc, "action_counts", {}),
         "replay_sets": acc.sets,
         "mechanisms": st,
         "restart_binding": restart_rows,
@@ -363,6 +391,12 @@ def replay(ctx, path):
         f.write(json.dumps(obj["history"]) + "\n")
     summ, bad, _ = replay_file(ctx, one, "replay", workers=1)
     if bad and bad[0]["r"] == "violation":
+        import re
+        for k in ctx._known:
+            if k.get("status") == "known" and re.search(k["signature"], bad[0].get("sig") or ""):
+                print("KNOWN-FINDING: property=C12 %s [%s]" % (k["what"], k["id"]))
+                print("  " + json.dumps(bad[0]))
+                return 0
         print("VIOLATION property=C12 replay=%s" % path)
         print("  " + json.dumps(bad[0]))
         return 1
@@ -371,3 +405,39 @@ def replay(ctx, path):
         return 2
     print("replay: history passes on the current tree")
     return 0
+
+
+def selftest(ctx):
+    """Binding self-test: corrupting one recorded field / dropping one event of a
+    generated behaviour must be rejected by the replay harness."""
+    r = ctx.tlc(AREA, "GossipGen", "st.cfg", files={"st.cfg": gen_cfg(2, 1, 0, 0, 2, ("skew",), 6, False)},
+                tag="gen_st", workers=2)
+    hists = [h for h in r.hists()]
+    full = [h for h in hists if [s["a"] for s in h[1:5]] == ["send", "sync", "ack", "ack2"]]
+    if not full:
+        raise vlib.Inconclusive("selftest: no complete exchange among %d histories" % len(hists))
+    base = full[0]
+    cases = {"unchanged": (base, "ok")}
+    c1 = json.loads(json.dumps(base))
+    c1[3]["st"]["n1"]["n2"] = [1, 1, 1]          # ack step: one recorded view entry corrupted
+    cases["corrupt_view"] = (c1, "drift")
+    c2 = json.loads(json.dumps(base))
+    c2[2]["m"]["nodes"] = {}                      # sync step: recorded ack message loses its nodes
+    cases["corrupt_msg"] = (c2, "drift")
+    c3 = json.loads(json.dumps(base))
+    del c3[2]                                     # the sync delivery event is dropped
+    cases["drop_event"] = (c3, "drift")
+    c4 = json.loads(json.dumps(base))
+    c4[4]["conv"] = not c4[4]["conv"]             # ghost flag flipped
+    cases["flip_allpairs"] = (c4, "drift")
+    okall = True
+    for name, (h, want) in cases.items():
+        one = ctx.path("st_%s.ndjson" % name)
+        with open(one, "w") as f:
+            f.write(json.dumps(h) + "\n")
+        summ, bad, _ = replay_file(ctx, one, "st_" + name, workers=1)
+        got = bad[0]["r"] if bad else "ok"
+        print("selftest %-14s expected %-5s got %-5s %s" % (name, want, got, (bad[0].get("kind") if bad else "")))
+        okall = okall and got == want
+    ctx.finish("model_checking", {"selftest": okall})
+    return 0 if okall else 2
